@@ -60,6 +60,15 @@ def chk_complex(dim):
                     return bad("Parseval fails for %s.%s" % (label, f), e2, e1)
                 if abs(F(2 * x - 3j * y, delta) - (2 * X - 3j * F(y, delta))).max() > 1e-9 * abs(X).max():
                     return bad("%s.%s is not linear" % (label, f))
+                # homogeneity at extreme amplitudes (linearity does not depend on the size of the numbers)
+                Xi0 = G(x, delta)
+                for amp in (1e-15, 1e-19, 1e11):
+                    for H, base, nm in ((F, X, f), (G, Xi0, g)):
+                        got = H(amp * x, delta)
+                        if numpy.shape(got) != numpy.shape(base) or not abs(got - amp * base).max() <= 1e-9 * amp * abs(base).max():
+                            return bad("%s.%s(a*x) != a*%s(x) for a=%g (a complex field of small / large overall magnitude)" % (label, nm, nm, amp), numpy.asarray(got), amp * base)
+                    if not abs(G(F(amp * x, delta), df) - amp * x).max() <= 1e-9 * amp * abs(x).max():
+                        return bad("%s.%s(%s(a*x)) != a*x for a=%g" % (label, g, f, amp))
                 # batch: per item
                 if x.ndim > dim:
                     it0 = x.reshape((-1,) + x.shape[-dim:])[0]
